@@ -464,9 +464,12 @@ Judge_supergates(e) ==
                                            AncClose(c, {Idx(c, q[1])}) \cap AncClose(c, {Idx(c, q[2])}) # {}}})
                   : j \in 1..Len(L) }
      \cup {"gate_not_covered:" \o c.names[i] : i \in {k \in cone : c.ty[k] \in Gates /\ producedBy(c.names[k]) = {}}}
+     \* every primary output (a gate, a constant, or an input that is fed through) is a node of some block
+     \cup {"output_in_no_block:" \o c.names[o] : o \in {k \in Outputs(c) : \A j \in 1..Len(L) : ~(WellFormedRec(L[j]) /\ c.names[k] \in NameSet(L[j]))}}
      \cup (IF e.form # "list" THEN {} ELSE
+           \* topological order: EVERY block that has a net inside comes before every block that reads that net
            {"not_topological:" \o ToString(j) : j \in {k \in 1..Len(L) :
-               \E a \in SgInputs(L[k]) : \E q \in producedBy(a) : q > k /\ ~(\E q2 \in producedBy(a) : q2 < k)}})
+               \E a \in SgInputs(L[k]) : \E q \in producedBy(a) : q > k}})
      \cup (IF ~c.acyc \/ NFree(c) > MaxBits \/ (\E j \in 1..Len(L) : ~WellFormedRec(L[j])) THEN {}
            ELSE LET U == StdU(c)
                     v == EvalStd(c)
